@@ -106,7 +106,38 @@ static bool audit_phase(CheckState& st) {
     return ok;
 }
 
+// C17 (thorough): uninitialised-value use and invalid accesses the sanitizers do not see (MSan is unusable with the
+// uninstrumented libstdc++): valgrind memcheck over a few hundred seeded runs of the plain simulator on the portable replica.
+static bool valgrind_phase(CheckState& st) {
+    std::string root = verif_root(), tmp = root + "/build/tmp"; sh("mkdir -p " + tmp);
+    const char* scen[] = {"wkd", "lq", "sample", "enc", "pairs", "group"}; int per = 40;
+    std::string list;
+    for (auto sc : scen) for (int i = 0; i < per; i++) list += strf("%s %llu %s\n", sc, (unsigned long long) mix3(st.seed, strhash(sc), (uint64_t) i), i % 3 == 2 ? "C/portable32" : "B/portable64");
+    write_file(tmp + "/vg.list", list);
+    // the plain simulator binary and the plain replicas (both exist: setup builds both flavours)
+    std::string plain_dir = replica_dir(); size_t p = plain_dir.rfind("/san"); if (p != std::string::npos) plain_dir = plain_dir.substr(0, p);
+    std::string cmd = "cd " + root + " && python3 bin/build_replicas.py --flavour plain --repo \"${JV_REPO:-/repo}\" >/dev/null 2>&1; make -s build/jsim >/dev/null 2>&1; "
+        "export JV_BUILD_DIR=$(python3 bin/build_replicas.py --flavour plain --repo \"${JV_REPO:-/repo}\" 2>/dev/null | tail -1); "
+        "cat " + tmp + "/vg.list | xargs -P 16 -L 1 sh -c 'valgrind -q --error-exitcode=9 --track-origins=no build/jsim one $0 --seed $1 --rep $2 > " + tmp + "/vg-$0-$1.out 2>&1; echo \"$0 $1 $?\"'";
+    int bad = 0, n = 0; std::string first;
+    for (auto& l : lines(sh(cmd))) {
+        std::vector<std::string> t; { std::string cur; for (char c : l) { if (c == ' ') { t.push_back(cur); cur.clear(); } else cur += c; } t.push_back(cur); }
+        if (t.size() != 3) continue; n++;
+        if (t[2] == "9") { bad++; if (first.empty()) { std::string o; read_file(tmp + "/vg-" + t[0] + "-" + t[1] + ".out", o); size_t q = o.find("=="); first = t[0] + " seed " + t[1] + ": " + o.substr(q == std::string::npos ? 0 : q, 900); } }
+        else if (t[2] != "0" && t[2] != "1") { st.counters["valgrind_runs_with_other_exit_code"]++; }
+    }
+    sh("rm -f " + tmp + "/vg-*.out " + tmp + "/vg.list");
+    st.evaluations += (uint64_t) n; st.counters["valgrind_memcheck_runs"] = (uint64_t) n; st.counters["valgrind_memcheck_runs_with_errors"] = (uint64_t) bad;
+    if (bad) {
+        bool in_lib = first.find("libjp_") != std::string::npos;
+        st.violated = true; st.v = {in_lib ? "C17" : "HARNESS", "valgrind-memcheck", first, 0};
+        return false;
+    }
+    return true;
+}
+
 bool register_static_phases(const std::string& prop, CheckSpec& spec) {
+    if (prop == "C17" && spec.tier == "thorough") spec.static_phases.push_back(valgrind_phase);
     if (prop == "C19") spec.static_phases.push_back(abi_phase);
     if (prop == "C20") spec.static_phases.push_back(audit_phase);
     return true;
